@@ -139,9 +139,15 @@ def pairs_at_hole(rng, budget):
                 for s2 in sorted(v for v in nb[s1] if v != s1 and v not in b):
                     for feat in (None, {"mode": "edges", "edges": [list(ie[0])]}):
                         allc.append({"V": V, "F": F, "sing": [s1, s2], "feat": feat, "tag": "grid-regular+hole", "sk": "pair-at-hole"})
-    if budget < len(allc):
-        allc = rng.sample(allc, budget)
-    return allc
+                    # history: a first cutter for s1 alone has worked on the mesh, then a cutter for s2 alone (the forced paths
+                    # of the two runs cross: anything left over from the first run closes a cycle with the second)
+                    allc.append({"V": V, "F": F, "sing": [s2], "feat": {"mode": "edges", "edges": [list(ie[0])]}, "hist": "second",
+                                 "hist_sing": [s1], "tag": "grid-regular+hole", "sk": "pair-at-hole"})
+    hist = [c for c in allc if c.get("hist")]
+    plain = [c for c in allc if not c.get("hist")]
+    if budget < len(plain):
+        plain = rng.sample(plain, budget)
+    return plain + hist      # the two-cutter histories are always run in full (a leftover of the first run shows on 2 of 1256)
 
 
 # ------------------------------------------------------------------------------------------------
